@@ -24,6 +24,20 @@ Theorem C14_ipv4_chars : forall a, Forall (fun c => is_digit c = true \/ c = 46)
 Proof. exact show_v4_chars. Qed.
 Print Assumptions C14_ipv4_chars.
 
+(* ---- the address codec (IPv6) ---- *)
+
+(* what Display prints for an IPv6 address (eight u16 segments) -- the first longest run of
+   two or more zero segments written "::", lower-case hex without leading zeros, the
+   IPv4-mapped form ::ffff:a.b.c.d with a dotted quad -- reads back as that address ... *)
+Theorem C14_ipv6_roundtrip : forall g, wf_v6 g -> parse_ip (show_v6 g) = Some (V6 g).
+Proof. exact ipv6_roundtrip. Qed.
+Print Assumptions C14_ipv6_roundtrip.
+
+(* ... and consists of [0-9a-f], ':' and '.' only *)
+Theorem C14_ipv6_chars : forall g, wf_v6 g -> Forall addrc (show_v6 g) /\ show_v6 g <> [].
+Proof. exact show_v6_chars. Qed.
+Print Assumptions C14_ipv6_chars.
+
 (* ---- reading ---- *)
 
 (* Every file described by a syntax tree whose lines are valid -- blank lines, comments,
@@ -41,6 +55,13 @@ Theorem C14_hosts_parse_denotes : forall f : file,
   exists h, deserialise (render f) = Ok h /\ agrees h (denote f) /\ nodup_keys h.
 Proof. exact hosts_parse_denotes. Qed.
 Print Assumptions C14_hosts_parse_denotes.
+
+(* the same when the last line has no terminator (e.g. the whole file is "1.2.3.4 foo#c") *)
+Theorem C14_hosts_parse_denotes_open : forall (f : file) (last : line),
+  Forall (fun le => valid_line (fst le)) f -> valid_line last ->
+  exists h, deserialise (render_open f last) = Ok h /\ agrees h (denote (f ++ [(last, LF)])) /\ nodup_keys h.
+Proof. exact hosts_parse_denotes_open. Qed.
+Print Assumptions C14_hosts_parse_denotes_open.
 
 (* one valid line, as parse_line sees it *)
 Theorem C14_parse_valid_line : forall l, wf_shape l -> line_contrib l <> CBad ->
@@ -74,17 +95,16 @@ Print Assumptions C14_parse_hosts_total.
 
 (* ---- writing and reading back ---- *)
 
-(* hosts data with well-formed, text-safe names (label octets ASCII other than white
-   space, '#', '.': exactly what names read from a hosts file are), unique keys, IPv4
-   addresses below 2^32 and IPv6 addresses whose printed form reads back ([v6_ok], a
-   decidable condition on the address; validated for generated addresses by the stream)
-   is written as text that reads back as the same mappings *)
-Theorem C14_hosts_roundtrip : forall h, text_safe h ->
+(* hosts data with unique keys, well-formed text-safe names (label octets ASCII other than
+   white space, '#', '.': exactly what names read from a hosts file are), IPv4 addresses
+   below 2^32 and IPv6 addresses of eight u16 segments is written as text that reads back
+   as the same mappings *)
+Theorem C14_hosts_roundtrip : forall h, text_safe_wf h ->
   exists h', deserialise (serialise h) = Ok h'
              /\ (forall k, alookup dname_eqb k (h_v4 h') = alookup dname_eqb k (h_v4 h)
                            /\ alookup dname_eqb k (h_v6 h') = alookup dname_eqb k (h_v6 h))
              /\ nodup_keys h'.
-Proof. exact hosts_roundtrip. Qed.
+Proof. exact hosts_roundtrip_wf. Qed.
 Print Assumptions C14_hosts_roundtrip.
 
 (* ---- Hosts <-> Zone ---- *)
@@ -118,7 +138,7 @@ Proof. exact hosts_zone_resolves. Qed.
 Print Assumptions C14_hosts_zone_resolves.
 
 (* the hypotheses are satisfiable *)
-Example C14_example_hosts : wf_hosts ex_hosts /\ text_safe ex_hosts.
-Proof. split; [exact ex_hosts_wf|exact ex_hosts_text_safe]. Qed.
+Example C14_example_hosts : wf_hosts ex_hosts /\ text_safe_wf ex_hosts.
+Proof. split; [exact ex_hosts_wf|exact ex_hosts_text_safe_wf]. Qed.
 Example C14_example_file : Forall (fun le => valid_line (fst le)) ex_file.
 Proof. exact ex_file_valid. Qed.
